@@ -4,7 +4,7 @@
    different instants writes the same records except for the time stamps of its call records ([rt]). *)
 From Coq Require Import List NArith Bool Lia PeanoNat.
 From DesVerif Require Import Common.Fuel Life.Model Life.Base Life.Step Life.Trace Life.Inert Life.Inv Life.Events Life.Restart
-  Life.Strip Life.Quiet Life.SilentBase Life.Silent Life.Term Life.Wake Life.Errors.
+  Life.Strip Life.Quiet Life.SilentBase Life.Future Life.Silent Life.Term Life.Wake Life.Errors.
 Import ListNotations.
 Open Scope N_scope.
 
@@ -200,7 +200,7 @@ Theorem others_as_if_silent :
   r_ok (run_script sc) = true -> r_ok (run_script sc') = true ->
   others m (items (events_of (trace sc))) = others m (items (events_of (trace sc'))).
 Proof.
-  intros H1 H2. subst sc'. destruct (silent_final sc m H1 H2) as (w & n & tr & w' & n' & tr' & G & G' & _ & _ & _ & O & -> & ->).
+  intros H1 H2. subst sc'. destruct (silent_final sc m H1 H2) as (w & n & tr & w' & n' & tr' & G & G' & _ & _ & _ & O & -> & -> & _).
   unfold events_of. rewrite !filter_app, (gen_no_end sc w tr G), (gen_no_end _ w' tr' G'), !end_seq_all_end, !app_nil_r. exact O.
 Qed.
 
@@ -209,7 +209,7 @@ Theorem others_teardown j : j <> m ->
   map rt (items (ends_of j (trace sc))) = map rt (items (ends_of j (trace sc'))).
 Proof.
   intros Hj. subst sc'.
-  destruct (silent_final sc m (run_terminates sc) (run_terminates _)) as (w & n & tr & w' & n' & tr' & G & G' & F & F' & R & _ & Et & Et').
+  destruct (silent_final sc m (run_terminates sc) (run_terminates _)) as (w & n & tr & w' & n' & tr' & G & G' & F & F' & R & _ & Et & Et' & _).
   rewrite Et, Et', !ends_of_app, (gen_no_ends sc j w tr G), (gen_no_ends _ j w' tr' G'). cbn [app].
   rewrite mods_quieten.
   destruct (in_dec N.eq_dec j (mods sc)) as [Hin|Hnin].
@@ -223,5 +223,26 @@ Proof.
     rewrite Ec. apply end_rec_retime; rewrite ?E1; [rewrite E1'; exact Ew|exact Ht|exact Hn|exact Hs].
   - destruct (recs_foreign j _ (mods sc) Hnin (end_seq_recs sc n (mods sc) w)) as (-> & _ & _).
     destruct (recs_foreign j _ (mods sc) Hnin (end_seq_recs (quieten m sc) n' (mods sc) w')) as (-> & _ & _). reflexivity.
+Qed.
+(* ... and the run in which m falls silent does not end later: every tear-down record of it is stamped no later than every
+   tear-down record of the run in which m panics *)
+Lemma end_seq_times sc0 now : forall ms w e, In e (snd (end_seq sc0 now ms w)) -> e_time e = now.
+Proof.
+  induction ms as [|i ms IH]; intros w e H; cbn [end_seq] in H; [destruct H|].
+  specialize (IH (fst (end_rec sc0 now i w)) e). destruct (end_seq sc0 now ms (fst (end_rec sc0 now i w))) as [w2 es]. cbn [snd] in *.
+  destruct H as [<-|H]; [reflexivity|apply IH, H].
+Qed.
+
+Theorem silent_ends_no_later e e' : In e (trace sc) -> In e' (trace sc') -> is_end e = true -> is_end e' = true ->
+  e_time e' <= e_time e.
+Proof.
+  subst sc'. intros Hin Hin' He He'.
+  destruct (silent_final sc m (run_terminates sc) (run_terminates _)) as (w & n & tr & w' & n' & tr' & G & G' & F & F' & R & _ & Et & Et' & HW & HW').
+  assert (Hn : forall sc0 w0 tr0 n0 e0, Gen sc0 w0 tr0 -> In e0 (tr0 ++ snd (end_seq sc0 n0 (mods sc0) w0)) -> is_end e0 = true -> e_time e0 = n0).
+  { intros sc0 w0 tr0 n0 e0 G0 H0 E0. apply in_app_or in H0. destruct H0 as [H0|H0]; [|eapply end_seq_times; exact H0].
+    exfalso. pose proof (gen_no_end sc0 w0 tr0 G0) as Hne. rewrite <- Hne in H0. apply filter_In in H0. destruct H0 as [_ H0]. rewrite E0 in H0. discriminate. }
+  rewrite Et in Hin. rewrite Et' in Hin'. rewrite (Hn _ _ _ _ _ G Hin He), (Hn _ _ _ _ _ G' Hin' He').
+  rewrite <- (end_time_L n w HW F), <- (end_time_L n' w' HW' F').
+  destruct R as [[HS|HD] _]; [rewrite (sm_fes _ _ HS); apply N.le_refl|apply (dd_L _ _ _ HD)].
 Qed.
 End Final.
